@@ -48,9 +48,12 @@ def queries(tier):
             for ad, m in grid:
                 qs.append(q_siv(alg, ad, m, be))
             igrid = [(a, m) for a in L(8) for m in L(8)] if full else [(0, 0), (9, 9), (8, 17), (17, 7), (1, 8), (0, 1), (7, 16)]
+            if be == "c32" and tier == "quick":
+                igrid = [(9, 9)]
             for ad, m in igrid:
                 qs.append(q_isap(alg, ad, m, be))
-            qs.append(q_isap(alg, 3, 9, be, mode=5))
+            if not (be == "c32" and tier == "quick"):
+                qs.append(q_isap(alg, 3, 9, be, mode=5))
         qs.append(q_siv(alg, 1, r + 1, "c64", form="I"))
         if tier == "thorough":
             qs.append(q_siv(alg, 64, 100, "c64"))
